@@ -145,12 +145,17 @@ func runSortlist(rep *vk.Report, r *rand.Rand, idx int, _ bool) (uint64, bool) {
 	if sorted {
 		walkList(rep, r, list, got, d1, viol)
 	}
+	sampleOps = []string{fmt.Sprintf("build %d values (input mode %d) with sorted_builder=%v less=%s; Finish; Builder.Iter yields an ordered permutation", n, inputMode, sorted, d1.name)}
+	if n > 0 {
+		sampleOps = append(sampleOps, fmt.Sprintf("first=%d last=%d", got[0], got[n-1]))
+	}
 	// re-sort by other orders
 	for k := r.IntN(3); k > 0; k-- {
 		d2 := lessDefs[r.IntN(len(lessDefs))]
 		desc["resort"] = fmt.Sprint(desc["resort"], " ", d2.name)
 		b.Sort(d2.less)
 		rep.Count("sortlist_resorts", 1)
+		sampleOps = append(sampleOps, "Sort("+d2.name+"); Builder.Iter yields an ordered permutation")
 		got = readAll(b.Iter(), n+10)
 		if msg := checkSorted(got, input, &d2); msg != "" {
 			viol("resort-wrong", "after Sort("+d2.name+"): "+msg)
